@@ -35,6 +35,7 @@ type cnItem struct {
 type cnSub struct {
 	V int64
 }
+type cnBox struct{}
 type CnCat struct{ Lives int64 }
 type CnDog struct {
 	Age   int64
@@ -53,8 +54,11 @@ type cnDB struct {
 	pet      int // 0 none, 1 cat, 2 dog
 	petVal   int64
 	slowUs   int
-	failMode int // 0 ok, 1 plain error, 2 safe error, 3 panic, 4 plain error wrapping context.Canceled
-	failOnce int // the next run of `flaky` fails this way, once; its recovery is not accompanied by any invalidation
+	failMode int   // 0 ok, 1 plain error, 2 safe error, 3 panic, 4 plain error wrapping context.Canceled
+	failOnce int   // the next run of `flaky` fails this way, once; its recovery is not accompanied by any invalidation
+	vetoOnce bool  // the next re-run's result is computed and then refused by a middleware (result and error both set), once
+	m        int64 // a datum of its own, behind its own resource (res2): read by an Expensive field below a slow parent
+	res2     *reactive.Resource
 	res      *reactive.Resource
 	cleanups *int32
 	allClean []*int32
@@ -81,6 +85,29 @@ func (db *cnDB) dep(ctx context.Context) {
 	atomic.StoreInt32(db.used[len(db.used)-1], 1)
 	db.mu.Unlock()
 	reactive.AddDependency(ctx, r, nil)
+}
+
+// dep2 registers the dependency on the second datum.
+func (db *cnDB) dep2(ctx context.Context) {
+	db.mu.Lock()
+	if db.res2 == nil || db.res2.Invalidated() {
+		db.res2 = reactive.NewResource()
+	}
+	r := db.res2
+	db.mu.Unlock()
+	reactive.AddDependency(ctx, r, nil)
+}
+
+// changeM changes the second datum and invalidates only what read it.
+func (db *cnDB) changeM() {
+	db.mu.Lock()
+	db.m++
+	old := db.res2
+	db.res2 = nil
+	db.mu.Unlock()
+	if old != nil {
+		old.Invalidate()
+	}
 }
 
 // change applies f to the data and invalidates what was read before.
@@ -231,6 +258,28 @@ func cnSchema(db *cnDB, rec *cnRec) *graphql.Schema {
 		}
 		return nil, nil
 	})
+	// `box` is slow to arrive (SlowUs, at least 1.5 ms); below it an Expensive field reads the second datum: its cached
+	// value may be invalidated between the start of a re-run and the moment the re-run looks it up
+	q.FieldFunc("box", func(ctx context.Context) (*cnBox, error) {
+		if err := enter(ctx, "box"); err != nil {
+			return nil, err
+		}
+		d := time.Duration(db.slowUs) * time.Microsecond
+		if d < 1500*time.Microsecond {
+			d = 1500 * time.Microsecond
+		}
+		time.Sleep(d)
+		return &cnBox{}, nil
+	})
+	box := sb.Object("cnBox", cnBox{})
+	box.FieldFunc("m", func(ctx context.Context, b *cnBox) (int64, error) {
+		id, _ := ctx.Value(cnSubIDKey{}).(string)
+		rec.add("exec", id, "m", "")
+		db.dep2(ctx)
+		db.mu.Lock()
+		defer db.mu.Unlock()
+		return db.m, nil
+	}, schemabuilder.Expensive)
 	sb.Object("cnItem", cnItem{})
 	sb.Object("cnSub", cnSub{})
 	sb.Object("CnCat", CnCat{})
@@ -256,6 +305,7 @@ var cnQueries = []string{
 	"query C { pet { __typename ... on CnCat { lives } ... on CnDog { age owner { v } } } n }",
 	"query D { items { id name } n pet { ... on CnCat { lives } } }",
 	"query E { flaky n }",
+	"query F { n box { m } }",
 }
 
 // ---- fake socket -------------------------------------------------------------------------------------
@@ -342,7 +392,9 @@ func cnGenActions(r *Rand, n int) []cnAction {
 	var out []cnAction
 	for i := 0; i < n; i++ {
 		id := 1 + r.Intn(3)
-		switch r.Intn(14) {
+		switch r.Intn(15) {
+		case 14:
+			out = append(out, cnAction{Op: []string{"failOnce", "failOnce", "vetoOnce", "changeM"}[r.Intn(4)], Arg: int64(1 + r.Intn(2))})
 		case 0, 1, 2, 3:
 			out = append(out, cnAction{Op: "subscribe", ID: id, Query: r.Intn(len(cnQueries))})
 		case 4, 5:
@@ -468,6 +520,17 @@ func cnRun(cs cnCase) *cnResult {
 	conn.Use(func(input *graphql.ComputationInput, next graphql.MiddlewareNextFunc) *graphql.ComputationOutput {
 		input.Ctx = context.WithValue(input.Ctx, cnSubIDKey{}, input.Id)
 		out := next(input)
+		if out.Error == nil && input.ParsedQuery != nil && input.ParsedQuery.Kind != "mutation" && input.Previous != nil {
+			db.mu.Lock()
+			veto := db.vetoOnce
+			db.vetoOnce = false
+			db.mu.Unlock()
+			if veto {
+				// a policy middleware refuses a result that was computed: it is never sent; the server has to retry
+				out.Error = errors.New("secret-middleware-veto")
+				return out
+			}
+		}
 		if out.Error == nil && input.ParsedQuery != nil && input.ParsedQuery.Kind != "mutation" {
 			rec.add("result", input.Id, internal.AsJSON(out.Current), "")
 		}
@@ -533,6 +596,10 @@ func cnRun(cs cnCase) *cnResult {
 		case "failOnce":
 			// the data changes, and the next run of `flaky` fails once (plainly or with a client-safe error)
 			db.change(func() { db.failOnce = int(a.Arg); db.n++ })
+		case "vetoOnce":
+			db.change(func() { db.vetoOnce = true; db.n++ })
+		case "changeM":
+			db.changeM()
 		case "settle":
 			quiet()
 		case "pause":
